@@ -70,6 +70,15 @@ T content(uint64_t seed, uint64_t idx)
 {
     using bits_t = std::conditional_t<sizeof(T) == 4, uint32_t, uint64_t>;
     bits_t b = bits_t((mix(seed, idx) << 20) | (idx & 0xFFFFF));
+    // a few cells hold values that compare equal to something else but are different bit patterns
+    switch ((idx + seed) % 23) {
+        case 3: b = bits_t(1) << (8 * sizeof(T) - 1); break;                                      // -0.0
+        case 5: b = 0; break;                                                                     // +0.0
+        case 7: b = (sizeof(T) == 4 ? bits_t(0x7fa00000u) : bits_t(0x7ff4000000000000ull)) | bits_t(idx & 0xFFFF); break;   // signalling NaN + payload
+        case 11: b = sizeof(T) == 4 ? bits_t(0xff800000u) : bits_t(0xfff0000000000000ull); break;   // -inf
+        case 13: b = bits_t(1 + (idx & 0xFF)); break;                                              // subnormal
+        default: break;
+    }
     T v;
     std::memcpy(&v, &b, sizeof v);
     return v;
@@ -238,6 +247,90 @@ struct Conv {
         const uint64_t ms = N == 1 ? 2000 : N == 2 ? 300 : N == 3 ? 40 : 14;
         rc_campaign<Case>(
             name(), tier(25, 800), 100, rc::gen::map(rc::gen::tuple(gen_extents(N, ms), rc::gen::arbitrary<uint64_t>(), rc::gen::arbitrary<bool>()), [](std::tuple<std::vector<uint64_t>, uint64_t, bool> t) { return Case{std::get<0>(t), std::get<1>(t), std::get<2>(t), {}}; }), run
+        );
+    }
+    static void reg()
+    {
+        add_inst(name(), campaign, [](const json & j) { return run(Case::from_json(j)); });
+    }
+};
+
+// conversion that also changes the stored scalar type: every value is converted element-wise (static_cast)
+template <Lay L1, Lay L2, size_t N, class T1, class T2, size_t M>
+struct ConvX {
+    using IV = cv::vector_d<std::size_t, N>;
+    using B1 = layout_t<L1, IV, cb::array<cv::vector_d<T1, M>>>;
+    using B2 = layout_t<L2, IV, cb::array<cv::vector_d<T2, M>>>;
+    static std::string name() { return std::string("convert/") + lay_name(L1) + "<" + tname<T1>() + "> -> " + lay_name(L2) + "<" + tname<T2>() + ">/N=" + std::to_string(N) + "/M=" + std::to_string(M); }
+    static T1 value(uint64_t seed, uint64_t idx)
+    {
+        // finite, distinct, many of them not representable in the narrower type
+        uint64_t h = mix(seed, idx);
+        T1 v = T1(double(int64_t(h % 2000001) - 1000000) / 7.0 + double(idx)) * ((h >> 40) % 5 == 0 ? T1(1e-3) : T1(1));
+        if ((idx + seed) % 19 == 4) {
+            v = -T1(0);
+        }
+        return v;
+    }
+    static Verdict run(const Case & c)
+    {
+        if ((L1 == Lay::morton_bmi2 || L2 == Lay::morton_bmi2) && !have_bmi2()) {
+            return std::nullopt;
+        }
+        covfie::field<B1> src = Conv<L1, L1, N, T1, M>::template build<B1>(c.ext);
+        {
+            typename covfie::field<B1>::view_t v(src);
+            for_box(c.ext, [&](const std::vector<uint64_t> & cc) {
+                typename covfie::field<B1>::coordinate_t x;
+                for (size_t k = 0; k < N; ++k) {
+                    x[k] = cc[k];
+                }
+                uint64_t rk = uint64_t(ref::row_major(cc, c.ext));
+                for (size_t j = 0; j < M; ++j) {
+                    v.at(x)[j] = value(c.seed, rk * M + j);
+                }
+            });
+        }
+        covfie::field<B2> dst(src);
+        auto cfg = dst.backend().get_configuration();
+        for (size_t k = 0; k < N; ++k) {
+            if (cfg[k] != c.ext[k]) {
+                return "converted field reports extent " + std::to_string(cfg[k]) + " on axis " + std::to_string(k);
+            }
+        }
+        typename covfie::field<B2>::view_t dv(dst);
+        Verdict bad;
+        for_box(c.ext, [&](const std::vector<uint64_t> & cc) {
+            if (bad) {
+                return;
+            }
+            typename covfie::field<B2>::coordinate_t x;
+            for (size_t k = 0; k < N; ++k) {
+                x[k] = cc[k];
+            }
+            uint64_t rk = uint64_t(ref::row_major(cc, c.ext));
+            for (size_t j = 0; j < M; ++j) {
+                T2 want = static_cast<T2>(value(c.seed, rk * M + j));
+                if (bits_of(dv.at(x)[j]) != bits_of(want)) {
+                    bad = "converted field holds " + ld_str(dv.at(x)[j]) + " at " + cstr(cc) + " component " + std::to_string(j) + ", the source value converts to " + ld_str(want);
+                    return;
+                }
+            }
+        });
+        Hasher h;
+        h.vec(c.ext).pod(c.seed);
+        label("conversion that changes the stored scalar type");
+        record(name(), true, h.h, [&] { return c.to_json(); });
+        return bad;
+    }
+    static void campaign()
+    {
+        if ((L1 == Lay::morton_bmi2 || L2 == Lay::morton_bmi2) && !have_bmi2()) {
+            return;
+        }
+        const uint64_t ms = N == 1 ? 500 : N == 2 ? 60 : N == 3 ? 14 : 7;
+        rc_campaign<Case>(
+            name(), tier(150, 5000), 100, rc::gen::map(rc::gen::pair(gen_extents(N, ms), rc::gen::arbitrary<uint64_t>()), [](std::pair<std::vector<uint64_t>, uint64_t> t) { return Case{t.first, t.second, false, {}}; }), run
         );
     }
     static void reg()
@@ -530,6 +623,11 @@ void register_all()
     Stack<Ip::lin, Lay::strided, Ip::lin, Lay::strided, 1, double, 3>::reg();
     Stack<Ip::nn, Lay::morton_port, Ip::lin, Lay::morton_bmi2, 4, float, 1>::reg();
     Stack<Ip::nn, Lay::strided, Ip::lin, Lay::strided, 3, float, 3>::reg();
+    ConvX<Lay::strided, Lay::morton_port, 2, float, double, 2>::reg();
+    ConvX<Lay::morton_bmi2, Lay::strided, 3, double, float, 3>::reg();
+    ConvX<Lay::strided, Lay::strided, 1, float, double, 1>::reg();
+    ConvX<Lay::hilbert, Lay::strided, 2, double, float, 4>::reg();
+    ConvX<Lay::strided, Lay::hilbert, 2, float, double, 3>::reg();
 #elif VF_GROUP == 4
     ToDevice<1, float, 1>::reg();
     ToDevice<2, double, 2>::reg();
